@@ -164,6 +164,7 @@ func (x *Exec) applyContractNamed(fr *Frame, st *State, con *Contract, names []s
 	if site != nil {
 		pos = site.Pos()
 	}
+	x.checkAtCalls(fr, st, names, args, site)
 	callee := con.Key
 	if !fr.pure {
 		for _, c := range append(append([]*Clause{}, con.Requires...), con.Callers...) {
@@ -685,4 +686,32 @@ func stripPkg(s string) string {
 		return s[i+1:]
 	}
 	return s
+}
+
+// checkAtCalls: caller-side obligations attached to specific call sites of the unit under
+// verification ("atcall" clauses); the callee's actual arguments are visible as callee_<param>.
+func (x *Exec) checkAtCalls(fr *Frame, st *State, names []string, args []*SV, site ssa.Instruction) {
+	if fr.depth != 0 || fr.pure || site == nil || x.unit == nil || x.unit.Con == nil || len(x.unit.Con.AtCalls) == 0 {
+		return
+	}
+	text := x.srcLabel(site.Pos(), "call")
+	for _, c := range x.unit.Con.AtCalls {
+		if !strings.Contains(text, c.Site) {
+			continue
+		}
+		env := x.loopEnv(fr, st)
+		vars := map[string]*SV{}
+		for k, v := range env.vars {
+			vars[k] = v
+		}
+		for i, n := range names {
+			if i < len(args) && n != "" {
+				vars["callee_"+n] = args[i]
+			}
+		}
+		env.vars = vars
+		g := x.evalClauseBool(c, env, st)
+		x.oblige(st, "atcall", c.Label+"@"+text, c.Tags, g, site.Pos())
+		st.assume(g)
+	}
 }
